@@ -18,19 +18,49 @@ type c10Case struct {
 	Preset      []string `json:"preset_vary,omitempty"`
 	R1          vlib.Req `json:"r1"`
 	R2          vlib.Req `json:"r2"`
+	// History: before the pair is served, the same middleware serves a few requests whose wrapped handler
+	// overwrites in place the header slices it can reach (the pair itself is served with the constant handler)
+	History bool `json:"adversarial_history,omitempty"`
 }
 
 func c10Build(passthrough bool, l CfgLit, debug bool) (http.Handler, *vlib.Noop, error) {
+	h, inner, _, err := c10BuildM(passthrough, l, debug)
+	return h, inner, err
+}
+
+func c10BuildM(passthrough bool, l CfgLit, debug bool) (http.Handler, *vlib.Noop, *cors.Middleware, error) {
 	inner := &vlib.Noop{}
 	if passthrough {
-		return new(cors.Middleware).Wrap(inner), inner, nil
+		m := new(cors.Middleware)
+		return m.Wrap(inner), inner, m, nil
 	}
 	m, err := cors.NewMiddleware(l.Config())
 	if err != nil {
-		return nil, nil, err
+		return nil, nil, nil, err
 	}
 	m.SetDebug(debug)
-	return m.Wrap(inner), inner, nil
+	return m.Wrap(inner), inner, m, nil
+}
+
+// c10History serves a few requests of every kind through m with a handler that scribbles over every header
+// slice it can reach, with and without a Vary value set earlier in the chain.
+func c10History(m *cors.Middleware) {
+	h := m.Wrap(scribbler{})
+	for _, r := range []vlib.Req{
+		{Method: "GET"}, {Method: "OPTIONS"}, {Method: "PUT"},
+		{Method: "GET", Hdr: map[string][]string{"Origin": {"https://a.example"}}},
+		{Method: "OPTIONS", Hdr: map[string][]string{"Origin": {"https://b.example"}}},
+		{Method: "GET", Hdr: map[string][]string{"Origin": {"https://evil.example"}}},
+		{Method: "OPTIONS", Hdr: map[string][]string{"Origin": {"https://a.example"}, "Access-Control-Request-Method": {"PUT"}, "Access-Control-Request-Headers": {"x-a"}}},
+	} {
+		for _, pre := range [][]string{nil, {"before"}} {
+			rec := vlib.NewRec()
+			if pre != nil {
+				rec.H["Vary"] = append([]string(nil), pre...)
+			}
+			h.ServeHTTP(rec, r.HTTP())
+		}
+	}
 }
 
 // varyNames returns the canonical header names listed in the Vary field lines.
@@ -86,9 +116,12 @@ func c10Compare(preset []string, r1, r2 vlib.Req, a, b vlib.Resp) *vlib.Failure 
 }
 
 func c10Judge(k c10Case) *vlib.Failure {
-	h, inner, err := c10Build(k.Passthrough, k.Cfg, k.Debug)
+	h, inner, m, err := c10BuildM(k.Passthrough, k.Cfg, k.Debug)
 	if err != nil {
 		return vlib.Failf("configuration of the C10 alphabet rejected: %v", err)
+	}
+	if k.History {
+		c10History(m)
 	}
 	var pre map[string][]string
 	if k.Preset != nil {
@@ -207,6 +240,7 @@ func checkC10(c *vlib.Ctx) (string, string) {
 		lit    CfgLit
 		debug  bool
 		preset []string
+		hist   bool
 	}
 	var jobs []job
 	for _, pre := range [][]string{nil, {"before"}, {"Accept-Encoding", "origin"}} {
@@ -217,13 +251,23 @@ func checkC10(c *vlib.Ctx) (string, string) {
 			}
 		}
 	}
+	// the same jobs once more after an adversarial history (they run after all pristine jobs: if a handler can
+	// corrupt process-wide state, the pristine jobs are not affected by it)
+	nPristine := len(jobs)
+	for _, j := range jobs[:nPristine] {
+		j.hist = true
+		jobs = append(jobs, j)
+	}
 	universe := []string{"Origin", "Access-Control-Request-Method", "Access-Control-Request-Headers", "Access-Control-Request-Private-Network", "X-Unrelated"}
-	c.ParRange(int64(len(jobs)), 1, "C10 jobs", func(ji int64) {
+	runJob := func(ji int64) {
 		j := jobs[ji]
-		h, inner, err := c10Build(j.pass, j.lit, j.debug)
+		h, inner, m, err := c10BuildM(j.pass, j.lit, j.debug)
 		if err != nil {
 			ck.Report(c10Case{Cfg: j.lit}, vlib.Failf("configuration of the C10 alphabet rejected: %v", err))
 			return
+		}
+		if j.hist {
+			c10History(m)
 		}
 		var pre map[string][]string
 		if j.preset != nil {
@@ -248,7 +292,7 @@ func checkC10(c *vlib.Ctx) (string, string) {
 				}
 			}
 			if f := c10Compare(j.preset, r, r, resps[i], resps[i]); f != nil {
-				ck.Report(c10Case{j.pass, j.lit, j.debug, j.preset, r, r}, f)
+				ck.Report(c10Case{j.pass, j.lit, j.debug, j.preset, r, r, j.hist}, f)
 			}
 		}
 		c.States.Add(int64(n))
@@ -273,7 +317,7 @@ func checkC10(c *vlib.Ctx) (string, string) {
 					nontrivial++
 				}
 				if sigs[a] != sigs[b] {
-					k := c10Case{j.pass, j.lit, j.debug, j.preset, reqs[a], reqs[b]}
+					k := c10Case{j.pass, j.lit, j.debug, j.preset, reqs[a], reqs[b], j.hist}
 					if f := vlib.Guard(func() *vlib.Failure { return c10Judge(k) }); f != nil {
 						ck.Report(k, f)
 					} else {
@@ -286,9 +330,13 @@ func checkC10(c *vlib.Ctx) (string, string) {
 		c.Transitions.Add(int64(n))
 		c.Nontrivial.Add(nontrivial)
 		if ji < 4 {
-			c.Sample(c10Case{j.pass, j.lit, j.debug, j.preset, reqs[n/3], reqs[n/3+1]})
+			c.Sample(c10Case{j.pass, j.lit, j.debug, j.preset, reqs[n/3], reqs[n/3+1], j.hist})
 		}
-	})
+	}
+	c.ParRange(int64(nPristine), 1, "C10 pristine jobs", runJob)
+	if !c.Stopped() {
+		c.ParRange(int64(len(jobs)-nPristine), 1, "C10 jobs after an adversarial history", func(i int64) { runJob(i + int64(nPristine)) })
+	}
 	c.Set("requests_per_job", len(reqs))
 	c.Set("jobs_config_x_debug_x_preset", len(jobs))
 	return levelMC, rule
